@@ -649,7 +649,7 @@ def python_replay(case):
 def main(run, replay=None):
     rng = run.rng
     quick = run.tier == "quick"
-    ncases = 320 if quick else 4000
+    ncases = 400 if quick else 12000
     proof_ok = run.coq_props()
 
     cases = []
@@ -838,6 +838,11 @@ def main(run, replay=None):
             multi = any(r.get("built") and len(r["bnd"]["faces"]) >= 2 for r in res["conds"])
             if multi or n >= 2:
                 distinct.add(canon_hash({k: case[k] for k in ("dim", "patches", "spaces", "fns", "conds", "eq", "second", "abstract")}))
+    okinds = {}
+    for v in prop_fail.values():
+        for k, _, d in v:
+            key = "%s/%s" % (k, d) if k == "non-trial-accepted" else k
+            okinds[key] = okinds.get(key, 0) + 1
     cov = {
         "evaluations": agree + len(disagree),
         "distinct_nontrivial": len(distinct),
@@ -850,6 +855,7 @@ def main(run, replay=None):
         "arm_tag_mismatches": len(tag_bad),
         "model_impl_disagreements": len(disagree),
         "property_oracle_failures": sum(len(v) for v in prop_fail.values()),
+        "property_oracle_failure_kinds": okinds,
         "conditions_in_eq_bc_checked": nconds_out,
         "shared_condition_position_overwritten_seen": hazards,
         "unsupported_cases": unsupported,
